@@ -50,7 +50,7 @@ func c17Classify(cs c17Case, at int) string {
 }
 
 func TestVerifC17(t *testing.T) {
-	rep := vNewReport("C17", "generated sequences (4-28 ops over all 16 Store operations, 1-6 topic and 1-5 group names, 30% of those cases with names containing '/', ':', '%', unicode, dot segments or empty) run on the real InMemoryStore and the real EtcdStore (embedded etcd); every fourth case is an overwrite family (for committed offset+metadata, next offset, topic config, group, partition count on one key: value->different, value->zero/empty, zero->value, same again, delete->re-create, full read-back after every write); every fourth case is a two-topic scenario: valid names where one is a strict string prefix of the other (a / a-b / a.b / a_1 / a0 ...), durable state on both, then DeleteTopic / re-create / growth / config / offsets on one, each followed by a full read-back of the other; the real etcd key set is read through the client after every op; plus 2 (thorough 12) scale cases per run: 150-300 committed offsets on one topic across groups x partitions, 150+ partitions, 150+ groups, 249-byte topic names and 254-byte group ids, then listings, DeleteTopic / DeleteConsumerGroup, reads of what must be gone and what must stay, re-creation; a case is non-trivial when it has a successful CreateTopic, a commit or group put, and a later read that returns stored data; distinct = distinct canonical (brokers, op list)")
+	rep := vNewReport("C17", "generated sequences (4-28 ops over all 16 Store operations, 1-6 topic and 1-5 group names, 30% of those cases with names containing '/', ':', '%', unicode, dot segments or empty) run on the real InMemoryStore and the real EtcdStore (embedded etcd); every eighth case uses partition indices the topic lacks (negative, = count, beyond, 2^31-1, before creation) on every partition-keyed operation, then delete / re-create / grow and reads back at the same indices; every fourth case is an overwrite family (for committed offset+metadata, next offset, topic config, group, partition count on one key: value->different, value->zero/empty, zero->value, same again, delete->re-create, full read-back after every write); every fourth case is a two-topic scenario: valid names where one is a strict string prefix of the other (a / a-b / a.b / a_1 / a0 ...), durable state on both, then DeleteTopic / re-create / growth / config / offsets on one, each followed by a full read-back of the other; the real etcd key set is read through the client after every op; plus 2 (thorough 12) scale cases per run: 150-300 committed offsets on one topic across groups x partitions, 150+ partitions, 150+ groups, 249-byte topic names and 254-byte group ids, then listings, DeleteTopic / DeleteConsumerGroup, reads of what must be gone and what must stay, re-creation; a case is non-trivial when it has a successful CreateTopic, a commit or group put, and a later read that returns stored data; distinct = distinct canonical (brokers, op list)")
 	e := msStartEtcd(t)
 	var coq, jsons []string
 	runOne := func(cs c17Case) {
@@ -117,6 +117,9 @@ func TestVerifC17(t *testing.T) {
 			{Brokers: 1, Ops: []msOp{{K: "ct", Topic: "offsets", N: 1, RF: 1}, {K: "ct", Topic: "a", N: 1, RF: 1}, {K: "co", Group: "offsets", Topic: "a", N: 5}, {K: "dt", Topic: "offsets"}, {K: "fo", Group: "offsets", Topic: "a"}}},
 			// error precedence of CreatePartitions
 			{Brokers: 1, Ops: []msOp{{K: "cp", Topic: "nosuch", N: 0}, {K: "cp", Topic: "nosuch", N: 3}}},
+			// an offset recorded for a partition the topic lacks must not survive delete + re-create
+			{Brokers: 1, Ops: []msOp{{K: "ct", Topic: "orders", N: 1, RF: 1}, {K: "uo", Topic: "orders", Part: 3, N: 41}, {K: "uo", Topic: "orders", Part: -1, N: 5}, {K: "co", Group: "g1", Topic: "orders", Part: 3, N: 9, Meta: "m"}, {K: "no", Topic: "orders", Part: 3},
+				{K: "dt", Topic: "orders"}, {K: "ct", Topic: "orders", N: 4, RF: 1}, {K: "no", Topic: "orders", Part: 3}, {K: "fo", Group: "g1", Topic: "orders", Part: 3}, {K: "cp", Topic: "orders", N: 6}, {K: "no", Topic: "orders", Part: 5}, {K: "ls"}}},
 			// value -> empty value on the same key (metadata), offset -> 0, group fields cleared, config zeroed
 			{Brokers: 1, Ops: []msOp{{K: "co", Group: "g1", Topic: "orders", N: 9, Meta: "checkpoint-a"}, {K: "co", Group: "g1", Topic: "orders", N: 9, Meta: ""}, {K: "fo", Group: "g1", Topic: "orders"}, {K: "co", Group: "g1", Topic: "orders", N: 0, Meta: "x"}, {K: "lo", Group: "g1", Topic: "orders"}, {K: "ls"},
 				{K: "pg", G: grp}, {K: "pg", G: &msGroup{ID: "g1", Members: []msMember{}}}, {K: "fg", Group: "g1"}, {K: "ct", Topic: "orders", N: 1, RF: 1}, {K: "uc", C: cfg}, {K: "uc", C: &msCfg{Name: "orders", Config: [][2]string{}}}, {K: "fc", Topic: "orders"}, {K: "uo", Topic: "orders", N: 8}, {K: "uo", Topic: "orders", N: -1}, {K: "no", Topic: "orders"}}},
@@ -146,6 +149,13 @@ func TestVerifC17(t *testing.T) {
 				ops, _, _ := msScenarioOps(sc)
 				rep.Hist("names:prefix-pair")
 				runOne(c17Case{Brokers: sc.Brokers, Ops: ops})
+				continue
+			}
+			if i%8 == 5 {
+				// partition indices the topic lacks, then delete / re-create / grow and read back
+				b, ops := msGenPartitionEdge(rr)
+				rep.Hist("names:partition-edge")
+				runOne(c17Case{Brokers: b, Ops: ops})
 				continue
 			}
 			if i%4 == 1 {
